@@ -199,6 +199,9 @@ def _fault_points(ji):
         # the working directory has been removed under the tool (getcwd fails): none of the relative output paths can be
         # opened, whatever -srcdir (given as an absolute path here) the tool changes into afterwards
         pts.append({"ch": sorted(job["outputs"])[0], "op": "real", "kind": "cwdgone"})
+        # the same without -srcdir: the header is named by its absolute path (the tool still changes directory, into the
+        # header's, while it makes the name canonical)
+        pts.append({"ch": sorted(job["outputs"])[0], "op": "real", "kind": "cwdgone-nosrcdir"})
     return pts
 
 
@@ -297,8 +300,8 @@ def execute(plan):
                 os.makedirs(target)
             elif f["kind"] == "devfull":
                 os.symlink("/dev/full", target)
-            elif f["kind"] == "cwdgone":
-                cwdgone = True
+            elif f["kind"] in ("cwdgone", "cwdgone-nosrcdir"):
+                cwdgone = f["kind"]
                 lost_real.update(job["outputs"])
             lost_real.add(f["ch"])
         elif f["op"] == "oom":
@@ -314,7 +317,12 @@ def execute(plan):
     if cwdgone:
         argv = list(job["argv"])
         i = argv.index("-srcdir")
-        argv[i + 1] = os.path.join(root, argv[i + 1])
+        if cwdgone == "cwdgone":
+            argv[i + 1] = os.path.join(root, argv[i + 1])
+        else:
+            srcdir = os.path.join(root, argv[i + 1])
+            n = job.get("nfiles", 1)
+            argv = argv[:i] + argv[i + 2:-n] + ["-I" + srcdir] + [os.path.join(srcdir, a) for a in argv[-n:]]
         os.makedirs(os.path.join(root, "gone"))
         wrapper = ["/bin/sh", "-c", 'cd gone && rmdir ../gone && exec "$0" "$@"', build.tool(plan["build"], job["tool"])] + argv
         r = runner.run_tool(wrapper, cwd=root, root=root, plan=rules, env=env, san=(plan["build"] == "san"), preload=preload)
